@@ -28,7 +28,7 @@ import verilog_emit as E
 OWN_COQ = ['Fmt/VBits.v', 'Fmt/VExpr.v', 'Fmt/VDoc.v', 'Fmt/VTop.v', 'Fmt/VElab.v', 'Fmt/VEmit.v', 'Fmt/VSpec.v', 'Fmt/VSem.v', 'Proofs/VerilogLists.v', 'Proofs/VerilogSlice.v',
            'Proofs/VerilogGrow.v', 'Proofs/VerilogPort.v', 'Proofs/VerilogAssign.v', 'Proofs/VerilogTop.v', 'Proofs/VElabBase.v', 'Proofs/VElabInv.v',
            'Proofs/VElabWf.v', 'Proofs/VElabExpr.v', 'Proofs/VElabConn.v', 'Proofs/VElabAssign.v', 'Proofs/VElabPorts.v', 'Proofs/VElabNets.v',
-           'Proofs/VElabTop.v', 'Proofs/VElabStable.v', 'Props/C04.v', 'Props/C06.v', 'Extract/ExtractVerilog.v']
+           'Proofs/VElabTop.v', 'Proofs/VElabStable.v', 'Proofs/VEmitRound.v', 'Proofs/VEmitLemmas.v', 'Props/C04.v', 'Props/C06.v', 'Extract/ExtractVerilog.v']
 CORPUS = os.path.join(common.CORPUS, 'verilog')
 EXAMPLES = os.path.join(common.REPO, 'example_netlists', 'verilog_netlists')
 QUICK_FILES = ['4bitadder', 'TMR_hierarchy', 'adder', 'b13', 'basic_clock_crossing', 'carrychain', 'fourBitCounter',
